@@ -159,6 +159,27 @@ func raceChild(spec string) {
 		}
 	}
 	_ = checkFinal
+	// a third server flaps between healthy and unhealthy meanwhile (what GatewayHealthCheck reports for a flapping upstream,
+	// with failure texts of varying length): requests keep reading its status
+	stopFlap := make(chan struct{})
+	flapDone := make(chan struct{})
+	go func() {
+		defer close(flapDone)
+		for i := 0; ; i++ {
+			select {
+			case <-stopFlap:
+				return
+			default:
+			}
+			if e, ok := w.Load(names[2%n]); ok && n > 2 {
+				if i%2 == 0 {
+					e.UpdateStatus(false, "NotReady", "request /healthz, got response code is 503"+strings.Repeat(".", i%7))
+				} else {
+					e.UpdateStatus(true, "", "")
+				}
+			}
+		}
+	}()
 	stopPickers := startPickers()
 	deadline := time.Now().Add(time.Duration(rc.Race.Millis) * time.Millisecond)
 	for time.Now().Before(deadline) {
@@ -168,6 +189,11 @@ func raceChild(spec string) {
 		doSync(n)
 	}
 	stopPickers()
+	close(stopFlap)
+	<-flapDone
+	if e, ok := w.Load(names[2%n]); ok {
+		e.UpdateStatus(true, "", "")
+	}
 	checkFinal("after the run")
 	// once more from a settled state: remove and re-add the last server under traffic (state derived from the server list
 	// that went stale in one direction during the run can only show in the other)
@@ -236,6 +262,11 @@ func runRace(c *rig.Ctx, rc RaceCase) bool {
 		// syncEndpoints overwrote the sync.Map (and its mutex) that a concurrent Pop was using
 		c.Fail(rig.Failure{Kind: "judge", Class: "c03.lb-reset-race", Case: rc, Impl: head,
 			What: what + "the process died / hung inside sync.Map (the load-balancer map was overwritten under a running Pop): requests are neither forwarded nor answered 503"})
+		return false
+	case strings.Contains(text, "panic:") && strings.Contains(text, "UnreadyReason"):
+		// finding C03-unready-reason-race
+		c.Fail(rig.Failure{Kind: "judge", Class: "c03.unready-reason-race", Case: rc, Impl: head,
+			What: what + "a request panicked inside EndpointInfo.UnreadyReason while an endpoint's status was being updated (status strings read without the status lock): the request is neither forwarded nor answered 503: " + head})
 		return false
 	case strings.Contains(text, "VERIF-RACE stale"):
 		line := text[strings.Index(text, "VERIF-RACE stale"):]
